@@ -71,6 +71,11 @@ def plan_c03(pid, rng, tier):
         plan["gossipDead"] = max(f["pi"], (f["mm"] * f["sm"] * f["pi"]) // 5)
     ncrash = 1 if n <= 3 else rng.choice([1, 1, 2])
     victims = rng.sample(names[1:], ncrash)
+    if n >= 4 and pid % 3 == 1:
+        # a member leaves gracefully and its process goes away while the cluster is still healthy
+        lv = rng.choice([x for x in names[1:] if x not in victims])
+        ev.append({"at": t_form - 1500, "kind": "leave", "node": lv, "timeout": 1000})
+        ev.append({"at": t_form - 400, "kind": "depart", "node": lv})
     when = rng.choice(["join", "steady", "steady", "pushpull"])
     t = {"join": rng.randrange(250, 300 + 40 * n + 200), "steady": t_form + rng.randrange(0, 20000),
          "pushpull": t_form + f["pp"] + rng.randrange(-200, 200)}[when]
@@ -107,6 +112,9 @@ def plan_c04(pid, rng, tier):
                 continue
             leavers.append(nm)
             ev.append({"at": at, "kind": "leave", "node": nm, "timeout": 5000})
+            if rng.random() < 0.7:
+                # the normal graceful departure: Leave, then the process goes away
+                ev.append({"at": at + 5000 + rng.choice([100, 3000]), "kind": "depart", "node": nm})
         elif nm not in leavers:
             ev.append({"at": at, "kind": "update", "node": nm, "meta": "m-%s-%d" % (nm, k + 1), "timeout": 5000})
     plan["events"] = ev
